@@ -412,13 +412,14 @@ export class SchemaPrintingContext {
   private readonly inProgressDefinitions: Record<string, boolean>;
   private readonly namedTypeSchemaOverrides: Record<string, Runtype>;
   // generated definition names (variants of discriminated unions) and the hash256 of the type each was given to
-  private readonly generatedNameOwners: Record<string, string> = {};
+  private readonly generatedNameOwners: Record<string, string> = Object.create(null);
 
   constructor(options: SchemaPrintingContextOptions) {
     this.refPathTemplate = options.refPathTemplate;
     this.definitionContainerKey = options.definitionContainerKey;
-    this.collectedDefinitions = {};
-    this.inProgressDefinitions = {};
+    // tables keyed by type names: no inherited members, and `__proto__` is an ordinary key
+    this.collectedDefinitions = Object.create(null);
+    this.inProgressDefinitions = Object.create(null);
     this.namedTypeSchemaOverrides = Object.fromEntries(
       Object.entries(options.namedTypeSchemaOverrides ?? {}).map(([name, parser]) => [
         name,
@@ -1923,7 +1924,7 @@ export class AnyOfDiscriminatedRuntype extends BaseRuntype {
     });
   }
   private getSchemaVariantRefs(ctx: SchemaContext): Array<{ key: string; ref: string }> {
-    const unionHash = this.hash({ seen: {} });
+    const unionHash = this.hash({ seen: Object.create(null) });
     const refOfVariant = new Map<Runtype, string>();
     const syntheticNames = new Set<string>();
     return Object.entries(this.schemaMapping).map(([key, schema]) => {
@@ -2707,7 +2708,8 @@ class ParserFromRuntype implements BeffParser<any> {
   schema(): JSONSchema7 {
     const ctx = {
       path: [],
-      seen: {},
+      // (a table keyed by type names: no inherited members, a type may be called toString or __proto__)
+      seen: Object.create(null),
       mode: "flat" as const,
     };
     return this._runtype.schema(ctx);
@@ -2715,7 +2717,8 @@ class ParserFromRuntype implements BeffParser<any> {
   schemaWithContext(schemaPrintingContext: SchemaPrintingContext): JSONSchema7 {
     const ctx = {
       path: [],
-      seen: {},
+      // (a table keyed by type names: no inherited members, a type may be called toString or __proto__)
+      seen: Object.create(null),
       mode: "contextual" as const,
       printingContext: schemaPrintingContext,
     };
@@ -2755,7 +2758,8 @@ class ParserFromRuntype implements BeffParser<any> {
   }
   hash(): number {
     const ctx = {
-      seen: {},
+      // (a table keyed by type names: no inherited members, a type may be called toString or __proto__)
+      seen: Object.create(null),
     };
     return this._runtype.hash(ctx);
   }
